@@ -284,6 +284,34 @@ class Ctx:
             else:
                 self.other.append({"attributed_to": sorted(props), "signature": sig})
 
+    def apalache_inductive(self, module, init, ind_init, inv):
+        """Unbounded argument: Apalache checks Init => Inv and Inv /\ Next => Inv' (symbolically, no bounds on the integers)."""
+        import subprocess, shutil
+        for name, args in (("init", ["--init=" + init, "--inv=" + inv, "--length=0"]), ("step", ["--init=" + ind_init, "--inv=" + inv, "--length=1"])):
+            od = os.path.join(self.outdir, "apalache-" + name)
+            shutil.rmtree(od, ignore_errors=True)
+            t0 = time.time()
+            try:
+                r = subprocess.run(["apalache-mc", "check", "--out-dir=" + od] + args + [os.path.join(core.SPEC, module + ".tla")],
+                                   stdout=subprocess.PIPE, stderr=subprocess.STDOUT, text=True, timeout=900, cwd=self.outdir)
+            except (subprocess.TimeoutExpired, FileNotFoundError) as e:
+                self.notes.append("apalache %s skipped: %s" % (name, e))
+                return
+            out = r.stdout
+            shutil.rmtree(od, ignore_errors=True)
+            self.tlc.append({"name": "apalache:%s:%s" % (module, name), "module": module, "states_generated": 1, "distinct_states": 1, "depth": 0,
+                             "cases_emitted": 0, "wall_s": round(time.time() - t0, 1), "coverage": None, "exit": "OK" if "EXITCODE: OK" in out else out[-300:]})
+            log("[apalache] %s %s: %s" % (module, name, "OK" if "EXITCODE: OK" in out else "not OK"))
+            if "EXITCODE: OK" in out:
+                continue
+            if "EXITCODE: ERROR (12)" in out or "violat" in out.lower():
+                p = os.path.join(self.outdir, "violation_apalache_%s.txt" % name)
+                with open(p, "w") as f:
+                    f.write(out[-6000:])
+                self.violations.append({"prop": self.prop, "replay": p, "summary": "Apalache: %s is not inductive (%s)" % (inv, name)})
+            else:
+                self.notes.append("apalache %s inconclusive: %s" % (name, out[-300:]))
+
     def count_nontrivial(self, cases_path, keyfn):
         """keyfn(case) -> hashable key or None (trivial)."""
         with open(cases_path) as f:
